@@ -6,7 +6,7 @@ from concurrent.futures import ThreadPoolExecutor
 from pathlib import Path
 VERIF = Path(__file__).resolve().parent.parent
 ALL = [f"C{i:02d}" for i in range(1, 19)]
-SCR = Path("/var/tmp/seed-matrix")
+SCR = Path(f"/var/tmp/seed-matrix-{os.getpid()}")   # per process: two matrices must not remove each other's copies
 
 def one(meta: Path) -> tuple[str, dict]:
     d = meta.parent
